@@ -40,6 +40,8 @@ pub fn roots_text(h: &Header) -> String {
 pub struct Emphasis {
     pub mutate: u64,   // per-mille of transactions mutated
     pub twins: u64,    // eighths: how often identical coins are created and spent together
+    pub epoch_edges: u64, // eighths: how often a fabricated history starts next to a staking-epoch boundary
+    pub faucets: u64,  // weight of faucet transactions
     pub pool_ops: u64, // weight of swap/deposit/withdraw
     pub stake_ops: u64,
     pub mint_ops: u64,
@@ -53,6 +55,8 @@ pub struct Hist<'a> {
     pub wallet: Wallet,
     pub out: &'a mut Out,
     pub stats: BTreeMap<String, u64>,
+    /// faucet transactions generated so far in this history (for replays)
+    pub faucets_seen: Vec<Transaction>,
 }
 
 impl<'a> Hist<'a> {
@@ -480,7 +484,7 @@ impl<'a> Hist<'a> {
         let known: Vec<PoolKey> = self.w.names.poolkeys.iter().filter(|k| k.left().to_bytes() < k.right().to_bytes()).cloned().collect();
         let cx = Ctx { height: p.height.0, network: p.network, mult: p.fee_multiplier, coins: &wcoins, pools: &pools, known_pools: &known };
         let hist: SmtMapping<Cas, BlockHeight, Header> = SmtMapping::new(p.history.clone());
-        let total_w = 40 + em.pool_ops * 3 + em.stake_ops + 8 + em.mint_ops;
+        let total_w = 40 + em.pool_ops * 3 + em.stake_ops + em.faucets + em.mint_ops;
         let pick = r.below(total_w);
         let (tx, label): (Option<Transaction>, &str) = if pick >= total_w - em.mint_ops {
             (gen_doscmint(r, &mut self.wallet, &cx, &hist), "doscmint")
@@ -499,6 +503,13 @@ impl<'a> Hist<'a> {
         };
         let mut tx = tx?;
         let mut label = label.to_string();
+        // an ordinary, fully authorised spend relabelled as a faucet
+        if em.mutate > 0 && tx.kind == TxKind::Normal && r.chance(1, 25) {
+            tx.kind = TxKind::Faucet;
+            let ins: Vec<WCoin> = tx.inputs.iter().filter_map(|i| wcoins.iter().find(|c| c.id == *i).cloned()).collect();
+            sign(&self.wallet, &mut tx, &ins);
+            label = format!("{}+as-faucet", label);
+        }
         if matches!(tx.kind, TxKind::Swap | TxKind::LiqDeposit | TxKind::LiqWithdraw) && r.chance(1, 6) {
             if let Some(k) = PoolKey::from_bytes(&tx.data) {
                 tx.data = pool_spellings(r, k).into();
@@ -551,6 +562,57 @@ impl<'a> Hist<'a> {
         };
         let mut txs: Vec<Transaction> = vec![];
         let mut labels = vec![];
+        // one member pays less than its minimum fee while its batch mate overpays by more than the shortfall
+        if em.mutate > 0 && r.chance(1, 10) {
+            let p = self.parts(name);
+            let coins_map = CoinMapping::new(p.coins.clone());
+            let wcoins = self.wallet.coins(&coins_map, &self.w.names);
+            let pools: SmtMapping<Cas, PoolKey, PoolState> = SmtMapping::new(p.pools.clone());
+            let known: Vec<PoolKey> = vec![];
+            let cx = Ctx { height: p.height.0, network: p.network, mult: p.fee_multiplier, coins: &wcoins, pools: &pools, known_pools: &known };
+            if let Some(mut a) = gen_normal(r, &mut self.wallet, &cx) {
+                let rest: Vec<WCoin> = wcoins.iter().filter(|c| !a.inputs.contains(&c.id)).cloned().collect();
+                let cx2 = Ctx { height: p.height.0, network: p.network, mult: p.fee_multiplier, coins: &rest, pools: &pools, known_pools: &known };
+                if let Some(mut b) = gen_normal(r, &mut self.wallet, &cx2) {
+                    let big = |t: &Transaction| t.outputs.iter().position(|o| o.denom == Denom::Mel && o.value.0 > 5000);
+                    let min_a = min_fee(&a, p.fee_multiplier);
+                    let short = 1 + r.below(40) as u128;
+                    if let (Some(ia), Some(ib)) = (big(&a), big(&b)) {
+                        if a.fee.0 >= min_a && min_a > short {
+                            let cut = a.fee.0 - (min_a - short);
+                            a.outputs[ia].value = CoinValue(a.outputs[ia].value.0 + cut);
+                            a.fee = CoinValue(a.fee.0 - cut);
+                            b.outputs[ib].value = CoinValue(b.outputs[ib].value.0 - short - 7);
+                            b.fee = CoinValue(b.fee.0 + short + 7);
+                            for t in [&mut a, &mut b] {
+                                let ins: Vec<WCoin> = t.inputs.iter().filter_map(|c| wcoins.iter().find(|k| k.id == *c).cloned()).collect();
+                                sign(&self.wallet, t, &ins);
+                                self.w.names.reg_tx(t);
+                            }
+                            self.bump("batch:fee-subsidised-by-batch-mate");
+                            let v = if r.chance(1, 2) { vec![a, b] } else { vec![b, a] };
+                            return (v, "fee-subsidised-by-batch-mate".into());
+                        }
+                    }
+                }
+            }
+        }
+        // withdrawals that are fine one by one and too much together
+        if em.pool_ops > 0 && r.chance(1, 2) {
+            let p = self.parts(name);
+            let coins_map = CoinMapping::new(p.coins.clone());
+            let wcoins = self.wallet.coins(&coins_map, &self.w.names);
+            let pools: SmtMapping<Cas, PoolKey, PoolState> = SmtMapping::new(p.pools.clone());
+            let known: Vec<PoolKey> = self.w.names.poolkeys.iter().filter(|k| k.left().to_bytes() < k.right().to_bytes()).cloned().collect();
+            let cx = Ctx { height: p.height.0, network: p.network, mult: p.fee_multiplier, coins: &wcoins, pools: &pools, known_pools: &known };
+            if let Some(ts) = gen_joint_overdraw(r, &mut self.wallet, &cx) {
+                for t in &ts {
+                    self.w.names.reg_tx(t);
+                }
+                self.bump("batch:joint-overdraw");
+                return (ts, "joint-overdraw".into());
+            }
+        }
         // dependent transactions: build against a scratch copy of the state with earlier txs applied
         let scratch_name = format!("{}~scratch", name);
         let base = self.w.unsealed.get(name).unwrap().clone();
@@ -559,7 +621,7 @@ impl<'a> Hist<'a> {
         // key order and requests in hash order: interleavings matter)
         let cluster = em.pool_ops >= 30 && r.chance(1, 3);
         let n = if cluster { 3 + r.below(4) } else { n };
-        let cluster_em = Emphasis { mutate: 0, pool_ops: 1000, stake_ops: 0, mint_ops: 0, batches: 0, blocks: 0, chain_ops: false, twins: 2 };
+        let cluster_em = Emphasis { mutate: 0, pool_ops: 1000, stake_ops: 0, mint_ops: 0, batches: 0, blocks: 0, chain_ops: false, twins: 2, epoch_edges: 0, faucets: 0 };
         for _ in 0..n {
             let em_here = if cluster { &cluster_em } else { em };
             if let Some((tx, label)) = self.gen_tx(r, &scratch_name, em_here) {
@@ -585,8 +647,11 @@ impl<'a> Hist<'a> {
         }
         // a second, different transaction spending the same inputs as a member of the batch (the inputs may be
         // coins of the prior state or coins created inside the batch)
-        if !txs.is_empty() && r.chance(1, 10) {
-            let k = r.below(txs.len() as u64) as usize;
+        if !txs.is_empty() && r.chance(1, 5) {
+            // prefer a member that spends a coin created inside this batch
+            let hashes: Vec<TxHash> = txs.iter().map(|t| t.hash_nosigs()).collect();
+            let inner: Vec<usize> = (0..txs.len()).filter(|&i| txs[i].inputs.iter().any(|c| hashes.contains(&c.txhash))).collect();
+            let k = if !inner.is_empty() && r.chance(3, 4) { *r.pick(&inner) } else { r.below(txs.len() as u64) as usize };
             let mut t = txs[k].clone();
             if !t.inputs.is_empty() && t.kind != TxKind::Faucet {
                 if let Some(o) = t.outputs.iter_mut().find(|o| o.denom == Denom::Mel && o.value.0 > 0) {
@@ -617,6 +682,31 @@ impl<'a> Hist<'a> {
                     }
                 }
             }
+        }
+        // a faucet seen earlier in this history (or in this very batch) comes back: unchanged, or with
+        // junk in its signature list (the signatures are not part of a transaction's identity)
+        for t in txs.iter() {
+            if t.kind == TxKind::Faucet && t.inputs.is_empty() && self.faucets_seen.len() < 64 {
+                self.faucets_seen.push(t.clone());
+            }
+        }
+        if em.mutate > 0 && !self.faucets_seen.is_empty() && r.chance(1, 6) {
+            let mut t = r.pick(&self.faucets_seen).clone();
+            let how = match r.below(3) {
+                0 => "faucet-replay",
+                1 => {
+                    t.sigs.push(bytes::Bytes::from(r.bytes(3)));
+                    "faucet-replay-junk-sig"
+                }
+                _ => {
+                    let n = 1 + r.below(3);
+                    t.sigs = (0..n).map(|_| { let k = r.below(70) as usize; bytes::Bytes::from(r.bytes(k)) }).collect();
+                    "faucet-replay-other-sigs"
+                }
+            };
+            let pos = r.below(txs.len() as u64 + 1) as usize;
+            txs.insert(pos, t);
+            labels.push(how.into());
         }
         (txs, labels.join("/"))
     }
@@ -649,7 +739,7 @@ pub fn rand_action(r: &mut Rng, wallet: &mut Wallet, height: u64) -> Option<Prop
 }
 
 /// a fabricated starting point: coins for the wallet in several denominations, builtin pools, stakes
-pub fn rand_fab(r: &mut Rng, wallet: &mut Wallet) -> FabSpec {
+pub fn rand_fab(r: &mut Rng, wallet: &mut Wallet, em: &Emphasis) -> FabSpec {
     let network = *r.pick(&[
         NetID::Custom02, NetID::Custom02, NetID::Custom03, NetID::Custom08, NetID::Testnet, NetID::Testnet, NetID::Mainnet, NetID::Mainnet,
     ]);
@@ -658,6 +748,8 @@ pub fn rand_fab(r: &mut Rng, wallet: &mut Wallet) -> FabSpec {
         NetID::Testnet => *r.pick(&[3u64, 498, 499, 500, 199999, 499999, 500000, 899999, 978391, 978392]),
         _ => *r.pick(&[1u64, 7, 199998, 199999, 200000, 399999]),
     };
+    // the block built on a state at height k*STAKE_EPOCH - 1 is the first block of epoch k
+    let height = if r.chance(em.epoch_edges, 8) { *r.pick(&[199_998u64, 199_999, 199_999, 200_000, 399_999, 399_999, 1_999_999, 599_999]) } else { height };
     let t906 = tip906_active(network, height);
     let _ = t906;
     let mut coins = vec![];
@@ -748,7 +840,7 @@ pub fn rand_genesis(r: &mut Rng, wallet: &mut Wallet) -> GenesisConfig {
 
 /// one history
 pub fn history(r: &mut Rng, w: &mut World, out: &mut Out, em: &Emphasis, stats: &mut BTreeMap<String, u64>) {
-    let mut h = Hist { w, wallet: Wallet::new(), out, stats: BTreeMap::new() };
+    let mut h = Hist { w, wallet: Wallet::new(), out, stats: BTreeMap::new(), faucets_seen: vec![] };
     // starting point
     let mut unsealed: String;
     let mut parent: Option<String> = None;
@@ -757,7 +849,7 @@ pub fn history(r: &mut Rng, w: &mut World, out: &mut Out, em: &Emphasis, stats: 
         let cfg = rand_genesis(r, &mut h.wallet);
         unsealed = h.op_genesis(cfg);
     } else {
-        let spec = rand_fab(r, &mut h.wallet);
+        let spec = rand_fab(r, &mut h.wallet, em);
         let s0 = h.op_fab(&spec);
         match h.op_next(&s0) {
             Some(u) => {
